@@ -452,6 +452,8 @@ fn merge_ok(m: &mut Merged, space: usize, v: &Value, dig: Vec<u64>) {
 /// hangs / aborts found so far in this run (each costs a watchdog period or a bisection)
 static COSTLY_FINDINGS: std::sync::atomic::AtomicU64 = std::sync::atomic::AtomicU64::new(0);
 const COSTLY_LIMIT: u64 = 3;
+static ALLOC_FINDINGS: std::sync::atomic::AtomicU64 = std::sync::atomic::AtomicU64::new(0);
+const ALLOC_LIMIT: u64 = 6;
 
 fn process_job(
     def: &CheckDef,
@@ -508,6 +510,12 @@ fn process_job(
             }
         }
         RunRes::AllocViolation(idx, size, err) => {
+            // every refused allocation costs a worker process and a re-run of the rest of its chunk: a
+            // change that makes thousands of cases over-allocate took half an hour to report. After
+            // a handful of such findings the remaining chunks are skipped (reported as capped).
+            if ALLOC_FINDINGS.fetch_add(1, Ordering::Relaxed) + 1 >= ALLOC_LIMIT {
+                COSTLY_FINDINGS.store(COSTLY_LIMIT, Ordering::Relaxed);
+            }
             {
                 let mut m = merged.lock().unwrap();
                 m.violations_total += 1;
